@@ -1,7 +1,7 @@
 """Directed case generators written in Python (on top of casegen's DSL).  Every choice comes from one
 random.Random(seed) so a case line is reproducible from (suite, seed, index)."""
 import random
-from casegen import Case, connack, ack, suback, publish, PINGRESP
+from casegen import Case, connack, ack, suback, publish, PINGRESP, enc_props
 
 
 def _lead(k_ms):
@@ -926,6 +926,47 @@ def gen_hist(seed, count):
 
 
 PYGEN['py_hist'] = gen_hist
+
+
+def gen_mixed(seed, count):
+    """the histories of Mixed.v: those of History.v with inbound QoS 0 messages arriving in between (one whole PUBLISH fed
+    while the connection is idle, then one poll()).  C16_mixed_history_completes says what must happen - every request
+    completes, every message is returned by its poll() as sent, nothing else is written; mon_hist checks it."""
+    out = []
+    for idx in range(count):
+        r = random.Random((seed << 20) ^ idx ^ 0x3d17)
+        rx = r.choice([16, 32, 64, 128])
+        c = Case(rx=rx, tx=r.choice([64, 128, 256, 1152]), ka=0, cid=r.choice([b't', b'client-m']))
+        c.broker(2)
+        c.connect()
+        c.broker(1)
+        for j in range(r.randint(2, 40 if idx % 5 == 0 else 14)):
+            x = r.random()
+            tag = bytes([97 + j % 26])
+            if x < 0.45:
+                topic = r.choice([b'm', b'm/' + tag, 'm\u00e9'.encode()])
+                props = r.choice([(), (), ((1, 1),), ((38, (b'k', b'v')),)]) if rx >= 32 else ()
+                room = rx - (2 + 2 + len(topic) + len(enc_props(props)))
+                payload = bytes(r.randrange(256) for _ in range(r.choice([0, 1, 3, max(0, room)])))[:max(0, room)]
+                c.feed(publish(0, 0, topic, payload, props=props, retain=r.random() < 0.2))
+                c.poll()
+            elif x < 0.65:
+                c.publish(r.choice([b'a', b't/1']), bytes(r.randrange(256) for _ in range(r.choice([0, 1, 5, 20]))), qos=1)
+                c.poll()
+            elif x < 0.8:
+                c.publish(b'q2/' + tag, bytes(r.randrange(256) for _ in range(r.choice([0, 3, 12]))), qos=2)
+                c.poll(2)
+            elif x < 0.92:
+                c.subscribe(tuple((b'f/' + tag + bytes([48 + k]), r.randint(0, 2)) for k in range(r.randint(1, 2))))
+                c.poll()
+            else:
+                c.unsubscribe((b'f/' + tag,))
+                c.poll()
+        out.append(c.line())
+    return out
+
+
+PYGEN['py_mixed'] = gen_mixed
 
 
 def gen_c14(seed, count):
